@@ -91,12 +91,21 @@ def CmdRes : Py Bytes → Prop
   | .ok _ => True
   | .error e => Err3 e
 
-/-- one retry loop with the retransmissions counted: at most `n + 2 - i` rounds of at most `L + 1` frames -/
+theorem resendMax_le (n : Nat) : resendMax n ≤ n + 1 := by unfold resendMax; omega
+
+theorem roundsMax_ge (n : Nat) : n + 1 ≤ roundsMax n ∧ resendMax n + 1 ≤ roundsMax n ∧ roundsMax n ≤ n + 2 := by
+  have := resendMax_le n
+  unfold roundsMax
+  omega
+
+/-- one retry loop with the retransmissions counted: at most `roundsMax n + 1 - i` rounds of at most `L + 1` frames -/
 theorem blockLoop_spec {σ} (P : Peer σ) (F L : Nat) (hF : L < F) (n : Nat) (resend : Option Nat) (req rty : Bytes) :
-    ∀ (f i : Nat) (out : Bytes) (w : World σ), i ≤ n + 1 → n + 2 ≤ i + f →
+    ∀ (f i : Nat) (out : Bytes) (w : World σ), i ≤ roundsMax n → roundsMax n + 1 ≤ i + f →
       BlockRes (blockLoop P F L n resend req rty f i out w).2 ∧
       frames w ≤ frames (blockLoop P F L n resend req rty f i out w).1 ∧
-      frames (blockLoop P F L n resend req rty f i out w).1 ≤ frames w + (n + 2 - i) * (L + 1) := by
+      frames (blockLoop P F L n resend req rty f i out w).1 ≤ frames w + (roundsMax n + 1 - i) * (L + 1) := by
+  obtain ⟨hR1, hR2, _⟩ := roundsMax_ge n
+  generalize roundsMax n = R at *
   intro f
   induction f with
   | zero => intro i out w h1 h2; omega
@@ -108,27 +117,27 @@ theorem blockLoop_spec {σ} (P : Peer σ) (F L : Nat) (hF : L < F) (n : Nat) (re
     obtain ⟨w', r⟩ := r1
     simp only at hx ⊢
     generalize hK : L + 1 = K at *
-    have hk1 : K ≤ (n + 2 - i) * K := Nat.le_mul_of_pos_left K (by omega)
-    have hstep : i ≤ n → (n + 2 - i) * K = (n + 2 - (i + 1)) * K + K := by
+    have hk1 : K ≤ (R + 1 - i) * K := Nat.le_mul_of_pos_left K (by omega)
+    have hstep : i + 1 ≤ R → (R + 1 - i) * K = (R + 1 - (i + 1)) * K + K := by
       intro h
-      rw [show n + 2 - i = (n + 2 - (i + 1)) + 1 by omega, Nat.add_mul, Nat.one_mul]
-    have hrec : i ≤ n → ∀ (o : Bytes),
+      rw [show R + 1 - i = (R + 1 - (i + 1)) + 1 by omega, Nat.add_mul, Nat.one_mul]
+    have hrec : i + 1 ≤ R → ∀ (o : Bytes),
         BlockRes (blockLoop P F L n resend req rty f (i + 1) o w').2 ∧
         frames w ≤ frames (blockLoop P F L n resend req rty f (i + 1) o w').1 ∧
-        frames (blockLoop P F L n resend req rty f (i + 1) o w').1 ≤ frames w + (n + 2 - i) * K := by
+        frames (blockLoop P F L n resend req rty f (i + 1) o w').1 ≤ frames w + (R + 1 - i) * K := by
       intro h o
       have := ih (i + 1) o w' (by omega) (by omega)
       have hs := hstep h
       exact ⟨this.1, by omega, by omega⟩
     have hend : ∀ e, Err3 e → BlockRes (Except.error e : Py Bytes) ∧ frames w ≤ frames w' ∧
-        frames w' ≤ frames w + (n + 2 - i) * K := fun e he => ⟨he, by omega, by omega⟩
+        frames w' ≤ frames w + (R + 1 - i) * K := fun e he => ⟨he, by omega, by omega⟩
     cases r with
     | data d =>
       cases d with
       | nil =>
         simp only
         split
-        · rename_i h; exact hrec h _
+        · rename_i h; exact hrec (by omega) _
         · exact hend _ (Or.inr (Or.inl rfl))
       | cons a t =>
         simp only
@@ -140,19 +149,19 @@ theorem blockLoop_spec {σ} (P : Peer σ) (F L : Nat) (hF : L < F) (n : Nat) (re
     | timeout =>
       simp only
       split
-      · rename_i h; exact hrec h _
+      · rename_i h; exact hrec (by omega) _
       · exact hend _ (Or.inl rfl)
     | transmission =>
       simp only
       split
-      · rename_i h; exact hrec h _
+      · rename_i h; exact hrec (by omega) _
       · exact hend _ (Or.inr (Or.inl rfl))
     | protocol => exact hend _ (Or.inr (Or.inr rfl))
     | waited => exact hend _ (Or.inl rfl)
     | fuel => exact absurd rfl hx.1
 
 /-- the command phase: one retry loop per command block -/
-theorem sendChunks_spec {σ} (P : Peer σ) (F L : Nat) (hF : L < F) (nNak : Nat) (hN : nNak + 1 ≤ F) :
+theorem sendChunks_spec {σ} (P : Peer σ) (F L : Nat) (hF : L < F) (nNak : Nat) (hN : roundsMax nNak ≤ F) :
     ∀ (cs : List Bytes) (pni : Nat) (w : World σ), cs ≠ [] → pni < 2 →
       BlockRes (sendChunks P F L nNak cs pni w).2.2 ∧ (sendChunks P F L nNak cs pni w).2.1 < 2 ∧
       frames w ≤ frames (sendChunks P F L nNak cs pni w).1 ∧
@@ -166,13 +175,13 @@ theorem sendChunks_spec {σ} (P : Peer σ) (F L : Nat) (hF : L < F) (nNak : Nat)
     simp only
     generalize hib : (((if (!rest.isEmpty) = true then 0x12 else 0x02) ||| pni) :: ch) = iblk
     have hb := blockLoop_spec P F L hF nNak (some (0xA2 ||| ((pni + 1) % 2))) iblk [0xB2 ||| pni] F 1 iblk w
-      (by omega) (by omega)
-    rw [show nNak + 2 - 1 = nNak + 1 by omega] at hb
+      (by have := (roundsMax_ge nNak).1; omega) (by omega)
+    rw [show roundsMax nNak + 1 - 1 = roundsMax nNak by omega] at hb
     generalize blockLoop P F L nNak (some (0xA2 ||| ((pni + 1) % 2))) iblk [0xB2 ||| pni] F 1 iblk w = r1 at hb
     obtain ⟨w', r⟩ := r1
     simp only at hb ⊢
     unfold loopFrames
-    generalize hQ : (nNak + 1) * (L + 1) = Q at *
+    generalize hQ : roundsMax nNak * (L + 1) = Q at *
     have hlen : (ch :: rest).length * Q = rest.length * Q + Q := by
       rw [List.length_cons, Nat.add_mul, Nat.one_mul]
     have hend : ∀ e, Err3 e → BlockRes (Except.error e : Py Bytes) ∧ pni < 2 ∧ frames w ≤ frames w' ∧
@@ -204,7 +213,7 @@ theorem sendChunks_spec {σ} (P : Peer σ) (F L : Nat) (hF : L < F) (nNak : Nat)
 
 /-- the response phase: every chained block must bring at least one octet and the response may not exceed
 65538 octets when a further block is asked for, so there are at most 65539 rounds -/
-theorem recvChain_spec {σ} (P : Peer σ) (F L : Nat) (hF : L < F) (nAck : Nat) (hA : nAck + 1 ≤ F) :
+theorem recvChain_spec {σ} (P : Peer σ) (F L : Nat) (hF : L < F) (nAck : Nat) (hA : roundsMax nAck ≤ F) :
     ∀ (f pni : Nat) (data resp : Bytes) (w : World σ), data ≠ [] → data.length - 1 ≤ resp.length → pni < 2 →
       65539 - (resp.length - (data.length - 1)) + 1 ≤ f →
       CmdRes (recvChain P F L nAck f pni data resp w).2.2 ∧ (recvChain P F L nAck f pni data resp w).2.1 < 2 ∧
@@ -234,13 +243,13 @@ theorem recvChain_spec {σ} (P : Peer σ) (F L : Nat) (hF : L < F) (nAck : Nat) 
           have hresp : resp.length ≤ 65538 := by
             apply Nat.le_of_not_gt; intro h; exact hpass (Or.inr h)
           have hb := blockLoop_spec P F L hF nAck none [0xA2 ||| pni] [0xA2 ||| pni] F 1 [0xA2 ||| pni] w
-            (by omega) (by omega)
-          rw [show nAck + 2 - 1 = nAck + 1 by omega] at hb
+            (by have := (roundsMax_ge nAck).1; omega) (by omega)
+          rw [show roundsMax nAck + 1 - 1 = roundsMax nAck by omega] at hb
           generalize blockLoop P F L nAck none [0xA2 ||| pni] [0xA2 ||| pni] F 1 [0xA2 ||| pni] w = r1 at hb
           obtain ⟨w', r⟩ := r1
           simp only at hb ⊢
           unfold loopFrames
-          generalize hQ : (nAck + 1) * (L + 1) = Q at *
+          generalize hQ : roundsMax nAck * (L + 1) = Q at *
           generalize hM : 65539 - (resp.length - inf.length) = M at *
           have hM2 : 65539 - resp.length + 1 ≤ M := by omega
           have hmul : (65539 - resp.length) * Q + Q ≤ M * Q := by
@@ -302,7 +311,7 @@ theorem chunks_len (m : Nat) (hm : 1 ≤ m) (l : Bytes) (hne : l ≠ []) :
   exact chunksAux_len m hm l.length l (Nat.le_refl _) hne
 
 theorem fuelNeed_le {pcd : Pcd} {F : Nat} (h : fuelNeed pcd ≤ F) :
-    pcd.wlim < F ∧ pcd.nNak + 1 ≤ F ∧ pcd.nAck + 1 ≤ F ∧ 65540 ≤ F := by
+    pcd.wlim < F ∧ roundsMax pcd.nNak ≤ F ∧ roundsMax pcd.nAck ≤ F ∧ 65540 ≤ F := by
   unfold fuelNeed at h
   omega
 
@@ -523,5 +532,187 @@ theorem presence_world {σ} (P : Peer σ) (pcd : Pcd) (w : World σ) :
   generalize w.xchg P [0xB2 ||| pcd.pni] = r
   obtain ⟨w', rx⟩ := r
   cases rx <;> rfl
+
+/-! ## block sizes, against every card -/
+
+theorem xchgW_fits {σ} (P : Peer σ) (L : Nat) (Q : Bytes → Prop) (hW : ∀ b : Bytes, (wtxmOf b).isSome → Q b) : ∀ (f sum : Nat) (w : World σ) (out : Bytes),
+    Q out → (∀ b ∈ w.trace, Q b) → ∀ b ∈ (xchgW P L f sum w out).1.trace, Q b := by
+  intro f
+  induction f with
+  | zero => intro sum w out _ hq; exact hq
+  | succ f ih =>
+    intro sum w out ho hq
+    have htr := xchg_trace P w out
+    have hq1 : ∀ b ∈ (w.xchg P out).1.trace, Q b := by
+      rw [htr]; intro b hb
+      rcases List.mem_append.mp hb with hb | hb
+      · exact hq b hb
+      · simp at hb; subst hb; exact ho
+    unfold xchgW
+    generalize w.xchg P out = r1 at hq1
+    obtain ⟨w', r⟩ := r1
+    simp only at hq1 ⊢
+    cases r with
+    | data d =>
+      simp only
+      cases hm : wtxmOf d with
+      | none => exact hq1
+      | some k =>
+        simp only
+        split
+        · exact hq1
+        · split
+          · exact hq1
+          · exact ih _ w' d (hW d (by simp [hm])) hq1
+    | timeout => exact hq1
+    | transmission => exact hq1
+    | protocol => exact hq1
+    | fuel => exact hq1
+
+theorem blockLoop_fits {σ} (P : Peer σ) (F L n : Nat) (Q : Bytes → Prop) (hW : ∀ b : Bytes, (wtxmOf b).isSome → Q b)
+    (resend : Option Nat) (req rty : Bytes) (hreq : Q req) (hrty : Q rty) :
+    ∀ (f i : Nat) (out : Bytes) (w : World σ), Q out → (∀ b ∈ w.trace, Q b) →
+      ∀ b ∈ (blockLoop P F L n resend req rty f i out w).1.trace, Q b := by
+  intro f
+  induction f with
+  | zero => intro i out w _ hq; exact hq
+  | succ f ih =>
+    intro i out w ho hq
+    have hx := xchgW_fits P L Q hW F 0 w out ho hq
+    unfold blockLoop
+    generalize xchgW P L F 0 w out = r1 at hx
+    obtain ⟨w', r⟩ := r1
+    simp only at hx ⊢
+    cases r with
+    | data d =>
+      cases d with
+      | nil => simp only; split; exact ih _ _ _ hrty hx; exact hx
+      | cons a t =>
+        simp only
+        split
+        · split
+          · exact hx
+          · exact ih _ _ _ hreq hx
+        · exact hx
+    | timeout => simp only; split; exact ih _ _ _ hrty hx; exact hx
+    | transmission => simp only; split; exact ih _ _ _ hrty hx; exact hx
+    | protocol => exact hx
+    | waited => exact hx
+    | fuel => exact hx
+
+theorem sendChunks_fits {σ} (P : Peer σ) (F L m nNak : Nat) (Q : Bytes → Prop) (hI : ∀ b : Bytes, b.length ≤ m + 1 → Q b)
+    (hW : ∀ b : Bytes, (wtxmOf b).isSome → Q b) :
+    ∀ (cs : List Bytes) (pni : Nat) (w : World σ), (∀ c ∈ cs, c.length ≤ m) → (∀ b ∈ w.trace, Q b) →
+      ∀ b ∈ (sendChunks P F L nNak cs pni w).1.trace, Q b := by
+  intro cs
+  induction cs with
+  | nil => intro pni w _ hq; exact hq
+  | cons c rest ih =>
+    intro pni w hcs hq
+    have hc : c.length ≤ m := hcs c (by simp)
+    unfold sendChunks
+    simp only
+    have hi : Q (((if (!rest.isEmpty) = true then 0x12 else 0x02) ||| pni) :: c) := hI _ (by simp; omega)
+    have hb := blockLoop_fits P F L nNak Q hW (some (0xA2 ||| ((pni + 1) % 2))) _ [0xB2 ||| pni] hi (hI _ (by simp)) F 1 _ w hi hq
+    generalize blockLoop _ _ _ _ _ _ _ _ _ _ _ = r at hb
+    obtain ⟨w', res⟩ := r
+    cases res with
+    | error e => exact hb
+    | ok d =>
+      cases d with
+      | nil => exact hb
+      | cons a t =>
+        simp only
+        split
+        · exact hb
+        · split
+          · split
+            · exact ih _ _ (fun x hx => hcs x (List.mem_cons_of_mem _ hx)) hb
+            · exact hb
+          · split <;> exact hb
+
+theorem recvChain_fits {σ} (P : Peer σ) (F L m nAck : Nat) (Q : Bytes → Prop) (hI : ∀ b : Bytes, b.length ≤ m + 1 → Q b)
+    (hW : ∀ b : Bytes, (wtxmOf b).isSome → Q b) :
+    ∀ (f pni : Nat) (data resp : Bytes) (w : World σ), (∀ b ∈ w.trace, Q b) →
+      ∀ b ∈ (recvChain P F L nAck f pni data resp w).1.trace, Q b := by
+  intro f
+  induction f with
+  | zero => intro pni data resp w hq; exact hq
+  | succ f ih =>
+    intro pni data resp w hq
+    unfold recvChain
+    cases data with
+    | nil => exact hq
+    | cons a inf =>
+      simp only
+      split
+      · exact hq
+      · split
+        · exact hq
+        · have hack : Q [0xA2 ||| pni] := hI _ (by simp)
+          have hb := blockLoop_fits P F L nAck Q hW none _ _ hack hack F 1 _ w hack hq
+          generalize blockLoop _ _ _ _ _ _ _ _ _ _ _ = r at hb
+          obtain ⟨w', res⟩ := r
+          cases res with
+          | error e => exact hb
+          | ok d =>
+            cases d with
+            | nil => exact hb
+            | cons b t =>
+              simp only
+              split
+              · exact hb
+              · exact ih _ _ _ _ hb
+
+/-- **every block, every card**: whatever the card does, a block handed to the reader during `exchange` is one the
+initiator built itself - an I-block with at most MIU octets of the command, R(ACK), R(NAK): at most `MIU + 1 = FSC - 2`
+octets - or the repetition of an S(WTX) request exactly as the card sent it -/
+theorem exchange_fits {σ} (P : Peer σ) (F : Nat) (pcd : Pcd) (cmd : Bytes) (w : World σ) (m : Nat)
+    (hm : pcd.miu = (m : Int)) (Q : Bytes → Prop) (hI : ∀ b : Bytes, b.length ≤ m + 1 → Q b)
+    (hW : ∀ b : Bytes, (wtxmOf b).isSome → Q b) (hq : ∀ b ∈ w.trace, Q b) :
+    ∀ b ∈ (exchange P F pcd cmd w).1.trace, Q b := by
+  have hcmd : ∀ b ∈ (exchangeCmd P F pcd cmd w).1.trace, Q b := by
+    unfold exchangeCmd
+    split
+    · exact hq
+    · split
+      · exact hq
+      · rename_i h0 h1
+        have hmt : pcd.miu.toNat = m := by omega
+        have hc : cmd ≠ [] := fun h => h1 (Or.inr h)
+        have hm1 : 1 ≤ m := by omega
+        have hlen : ∀ c ∈ chunks m cmd, c.length ≤ m := by
+          unfold chunks
+          rw [if_neg hc]
+          have aux : ∀ (f : Nat) (l : Bytes), ∀ c ∈ chunksAux m f l, c.length ≤ m := by
+            intro f
+            induction f with
+            | zero => intro l c hc'; simp [chunksAux] at hc'
+            | succ f ih =>
+              intro l c hc'
+              unfold chunksAux at hc'
+              split at hc'
+              · simp at hc'; subst hc'; assumption
+              · rcases List.mem_cons.mp hc' with rfl | h
+                · simp; omega
+                · exact ih _ c h
+          exact aux _ _
+        rw [hmt]
+        have h1' := sendChunks_fits P F pcd.wlim m pcd.nNak Q hI hW (chunks m cmd) pcd.pni w hlen hq
+        generalize sendChunks _ _ _ _ _ _ _ = r at h1'
+        obtain ⟨w1, pni1, res⟩ := r
+        cases res with
+        | error e => exact h1'
+        | ok d => exact recvChain_fits P F pcd.wlim m pcd.nAck Q hI hW F pni1 d (d.drop 1) w1 h1'
+  unfold exchange
+  cases pcd.failed with
+  | some e => exact hq
+  | none =>
+    simp only
+    generalize exchangeCmd P F pcd cmd w = r at hcmd
+    obtain ⟨w', pcd', res⟩ := r
+    cases res with
+    | ok d => exact hcmd
+    | error e => cases e <;> exact hcmd
 
 end NfcVerif.IsoDep2
